@@ -453,6 +453,8 @@ func checkC13(c *core.Ctx) {
 	}
 	ruleConstraintNames(c)
 	ruleForgeLogIK(c)
+	ruleRequestInputNotMutated(c)
+	ruleIKLookupColumns(c)
 	// HTTP
 	n := 0
 	for _, s := range writeCallSites(c, logWriters...) {
